@@ -205,7 +205,7 @@ func TestVerifReplay(t *testing.T) {
         src = '''package sm2
 import ("testing"; "bytes"; "github.com/bilibili/smgo/sm3")
 type verifReader struct{ b []byte; used int }
-func (r *verifReader) Read(p []byte) (int, error) { n := copy(p, r.b[r.used:]); r.used += n; return n, nil }
+func (r *verifReader) Read(p []byte) (int, error) { if r.used >= len(r.b) { for i := range p { p[i] = 0x5a }; r.used += len(p); return len(p), nil }; n := copy(p, r.b[r.used:]); r.used += n; return n, nil }
 func TestVerifReplay(t *testing.T) {
 	id, px, py, msg, priv := %s, %s, %s, %s, %s
 	r, s, err := Sign(id, px, py, &verifReader{b: %s}, priv, msg)
